@@ -164,6 +164,16 @@ type lkCtx struct {
 	guardVar   map[*types.Var]int
 }
 
+func lkUnparen(e ast.Expr) ast.Expr {
+	for {
+		p, ok := e.(*ast.ParenExpr)
+		if !ok {
+			return e
+		}
+		e = p.X
+	}
+}
+
 func lkShortPkg(p string) string { return p[strings.LastIndex(p, "/")+1:] }
 
 func lkTypeName(t types.Type) string {
@@ -351,7 +361,7 @@ func lkIsFuncType(t types.Type) bool {
 
 // callee resolution: gluon units, or external function name
 func (w *lkWalker) callees(call *ast.CallExpr) (units []*lkUnit, ext string, fv types.Object, lit *ast.FuncLit, skip bool) {
-	fun := ast.Unparen(call.Fun)
+	fun := lkUnparen(call.Fun)
 	if tv, ok := w.info.Types[fun]; ok && tv.IsType() {
 		return nil, "", nil, nil, true
 	}
@@ -427,11 +437,11 @@ func (w *lkWalker) dropSelfDecorator(f *ast.SelectorExpr, cands []*lkUnit) []*lk
 	if d.sig == nil || d.sig.Recv() == nil {
 		return cands
 	}
-	inner, ok := ast.Unparen(f.X).(*ast.SelectorExpr)
+	inner, ok := lkUnparen(f.X).(*ast.SelectorExpr)
 	if !ok {
 		return cands
 	}
-	id, ok := ast.Unparen(inner.X).(*ast.Ident)
+	id, ok := lkUnparen(inner.X).(*ast.Ident)
 	if !ok || w.info.Uses[id] != d.sig.Recv() {
 		return cands
 	}
@@ -471,7 +481,7 @@ func lkIsSyncHelper(ext string) bool {
 
 // funcValue classifies an expression used as a function value (argument position)
 func (w *lkWalker) funcValue(e ast.Expr) (u *lkUnit, isParam bool) {
-	e = ast.Unparen(e)
+	e = lkUnparen(e)
 	switch x := e.(type) {
 	case *ast.FuncLit:
 		return w.lc.byLit[x], false
@@ -498,7 +508,7 @@ func (w *lkWalker) funcValue(e ast.Expr) (u *lkUnit, isParam bool) {
 
 func (w *lkWalker) call(call *ast.CallExpr, mode string) {
 	// receiver expression and arguments are evaluated first
-	if sel, ok := ast.Unparen(call.Fun).(*ast.SelectorExpr); ok {
+	if sel, ok := lkUnparen(call.Fun).(*ast.SelectorExpr); ok {
 		w.node(sel.X)
 	}
 	var fargs []*lkUnit
@@ -517,7 +527,7 @@ func (w *lkWalker) call(call *ast.CallExpr, mode string) {
 	add := func(e lkEv) { _, e.line = w.lc.c.pos(call.Pos()); out = append(out, e) }
 	units, ext, fv, lit, skip := w.callees(call)
 	if mode != "go" {
-		switch f := ast.Unparen(call.Fun).(type) {
+		switch f := lkUnparen(call.Fun).(type) {
 		case *ast.Ident:
 			w.lc.callPos[f] = true
 		case *ast.SelectorExpr:
@@ -578,7 +588,7 @@ func (w *lkWalker) call(call *ast.CallExpr, mode string) {
 	default:
 		// external callee
 		name := ""
-		if sel, ok := ast.Unparen(call.Fun).(*ast.SelectorExpr); ok {
+		if sel, ok := lkUnparen(call.Fun).(*ast.SelectorExpr); ok {
 			name = sel.Sel.Name
 			if strings.HasPrefix(ext, "sync.sync.Mutex.") || strings.HasPrefix(ext, "sync.sync.RWMutex.") || strings.HasPrefix(ext, "sync.sync.Locker.") {
 				id := w.lockID(sel.X)
@@ -626,7 +636,7 @@ func (w *lkWalker) call(call *ast.CallExpr, mode string) {
 
 func (w *lkWalker) markWrites(lhs ast.Expr) {
 	for {
-		switch x := ast.Unparen(lhs).(type) {
+		switch x := lkUnparen(lhs).(type) {
 		case *ast.IndexExpr:
 			lhs = x.X
 			continue
@@ -661,7 +671,7 @@ func (w *lkWalker) node(n ast.Node) {
 			w.call(x.Call, "go")
 			return false
 		case *ast.CallExpr:
-			if id, ok := ast.Unparen(x.Fun).(*ast.Ident); ok && id.Name == "delete" && len(x.Args) > 0 {
+			if id, ok := lkUnparen(x.Fun).(*ast.Ident); ok && id.Name == "delete" && len(x.Args) > 0 {
 				if _, isB := w.info.Uses[id].(*types.Builtin); isB {
 					w.markWrites(x.Args[0])
 				}
@@ -671,7 +681,7 @@ func (w *lkWalker) node(n ast.Node) {
 		case *ast.AssignStmt:
 			// `fn := func() {...}` binds a local function variable
 			if len(x.Lhs) == 1 && len(x.Rhs) == 1 {
-				if fl, ok := ast.Unparen(x.Rhs[0]).(*ast.FuncLit); ok {
+				if fl, ok := lkUnparen(x.Rhs[0]).(*ast.FuncLit); ok {
 					if id, ok := x.Lhs[0].(*ast.Ident); ok {
 						o := w.info.Defs[id]
 						if o == nil {
@@ -1267,4 +1277,94 @@ func factsLocks(c *factsCtx, outdir string) error {
 
 func init() {
 	factGens = append(factGens, factGen{"Locks", factsLocks})
+}
+
+// ---- Facts/CloseVariant.lean ----------------------------------------------------------------
+// Which QueuedChannel close the code uses: State.Close -> closeUpdateQueue -> updatesQueue.<M>() and
+// Server.Close -> serveErrCh.<M>(). `some true` = exactly one call, CloseAndDiscardQueued; `some
+// false` = exactly one call, Close; anything else = none (never defaults to the good case).
+
+func lkQueueCalls(files []*ast.File, recvType, method, field string) (names []string, found bool) {
+	for _, f := range files {
+		for _, d := range f.Decls {
+			fd, ok := d.(*ast.FuncDecl)
+			if !ok || fd.Body == nil || fd.Name.Name != method || fd.Recv == nil || len(fd.Recv.List) != 1 {
+				continue
+			}
+			t := fd.Recv.List[0].Type
+			if st, ok := t.(*ast.StarExpr); ok {
+				t = st.X
+			}
+			if id, ok := t.(*ast.Ident); !ok || id.Name != recvType {
+				continue
+			}
+			found = true
+			ast.Inspect(fd.Body, func(n ast.Node) bool {
+				call, ok := n.(*ast.CallExpr)
+				if !ok {
+					return true
+				}
+				if sel, ok := call.Fun.(*ast.SelectorExpr); ok {
+					if field == "" {
+						names = append(names, sel.Sel.Name)
+					} else if inner, ok := sel.X.(*ast.SelectorExpr); ok && inner.Sel.Name == field {
+						names = append(names, sel.Sel.Name)
+					}
+				}
+				return true
+			})
+		}
+	}
+	return names, found
+}
+
+func lkDiscards(names []string) string {
+	if len(names) == 1 && names[0] == "CloseAndDiscardQueued" {
+		return "true"
+	}
+	if len(names) == 1 && names[0] == "Close" {
+		return "false"
+	}
+	return "unknown"
+}
+
+func factsCloseVariant(c *factsCtx, outdir string) error {
+	stateFiles := c.parseDir("internal/state")
+	rootFiles := c.parseDir(".")
+	all, _ := lkQueueCalls(stateFiles, "State", "Close", "")
+	viaHelper := false
+	for _, n := range all {
+		if n == "closeUpdateQueue" {
+			viaHelper = true
+		}
+	}
+	// direct calls on updatesQueue inside State.Close count as well
+	direct, _ := lkQueueCalls(stateFiles, "State", "Close", "updatesQueue")
+	helper, _ := lkQueueCalls(stateFiles, "State", "closeUpdateQueue", "updatesQueue")
+	calls := append([]string{}, direct...)
+	if viaHelper {
+		calls = append(calls, helper...)
+	}
+	errch, _ := lkQueueCalls(rootFiles, "Server", "Close", "serveErrCh")
+	list := func(xs []string) string {
+		var ys []string
+		for _, x := range xs {
+			ys = append(ys, leanStr(x))
+		}
+		return "[" + strings.Join(ys, ", ") + "]"
+	}
+	var b strings.Builder
+	b.WriteString("namespace Gluon.Facts\n\n")
+	b.WriteString("/-- methods that State.Close (internal/state/state.go), directly or through closeUpdateQueue, calls on state.updatesQueue -/\n")
+	fmt.Fprintf(&b, "def stateCloseQueueCalls : List String := %s\n\n", list(calls))
+	b.WriteString("/-- some true: exactly CloseAndDiscardQueued; some false: exactly Close; none: anything else -/\n")
+	fmt.Fprintf(&b, "def stateCloseDiscards : Option Bool := %s\n\n", leanOptBool(lkDiscards(calls)))
+	b.WriteString("/-- methods that Server.Close (server.go) calls on s.serveErrCh -/\n")
+	fmt.Fprintf(&b, "def serverCloseErrChCalls : List String := %s\n\n", list(errch))
+	fmt.Fprintf(&b, "def serverErrChDiscards : Option Bool := %s\n\nend Gluon.Facts\n", leanOptBool(lkDiscards(errch)))
+	return writeLean(outdir, "CloseVariant.lean", b.String())
+}
+
+func init() {
+	factGens = append(factGens, factGen{"CloseVariant", factsCloseVariant})
 }
